@@ -46,7 +46,8 @@
 (*   CopyEnd          ImageCopy returns nil; deferred GCUnlock              *)
 (*   CopyAbort        a source request fails, ImageCopy returns the error;  *)
 (*   CopyFailEnd      deferred GCUnlock runs on the error path as well      *)
-(*   Close            ocidir/close.go:Close (skip if gc off / no entry /    *)
+(*   Close            ocidir/close.go:Close, with any context (skip if gc   *)
+(*                    off / no entry /                                      *)
 (*                    not mod / locks>0; else mark = closeProcManifest from *)
 (*                    index.json, sweep blobs/, delete the modRefs entry)   *)
 (*   TagDelete        ocidir/tag.go:tagDelete (every entry of the tag)      *)
@@ -99,6 +100,12 @@ CONSTANTS Copies,     \* ids of the ImageCopy calls, e.g. {"c1", "c2"}
                       \* all but "resolve" exist for expected-counterexample configurations only
           LockRefTgt, \* TRUE: ImageCopy also takes the GC lock of a separate referrer target (image.go,
                       \* fix ed2957a); FALSE: only of refTgt, as found (finding C08-3)
+          CtxKinds,   \* the contexts rc.Close is called with: "bg" (live), "cancelled", "expired"
+                      \* (deadline already passed), "late" (shared with the call before, cancelled after it)
+          MarkCtx,    \* FALSE: the mark phase does not look at the context (close.go, manifest.go:
+                      \* manifestGet ignores it: the code as it is); TRUE: manifestGet fails on a finished
+                      \* context and closeProcManifest swallows the error (seeded change C08-6): only the
+                      \* digests index.json lists are marked.  TRUE exists for an expected counterexample.
           Eager       \* TRUE: steps of a copy that wait for nothing run before anything else
                       \* (hand-made partial order reduction for the graph-shape configurations;
                       \* the lock configurations are explored with every interleaving)
@@ -380,12 +387,14 @@ CopyFailDrain(c, b) ==
 \* ---- the collector ----
 \* (readIndex fails while index.json does not exist: Close returns the error, nothing changes)
 GCRuns(k) == conf.gc /\ modRefs[k].ex /\ modRefs[k].mod /\ modRefs[k].locks = 0 /\ hasidx
-Close(kk) ==
+\* x: the context of the call.  Close never checks it and neither does anything the mark phase calls,
+\* so the result does not depend on it (unless MarkCtx).
+Close(kk, x) ==
   LET k == GcKey(kk) IN
   /\ closes < MaxCloses
   /\ closes' = closes + 1
   /\ IF GCRuns(k)
-     THEN /\ files' = files \cap MarkAll(files, idx)
+     THEN /\ files' = files \cap (IF MarkCtx /\ x # "bg" THEN {e[2] : e \in idx} ELSE MarkAll(files, idx))
           /\ modRefs' = [modRefs EXCEPT ![k] = NoEntry]
      ELSE UNCHANGED <<files, modRefs>>
   /\ UNCHANGED <<conf, idx, hasidx, cst, act, need, hit, got, tmpf, fin, rl, ops>>
@@ -450,7 +459,7 @@ Gated(c) == \/ CopyHeadSame(c) \/ CopyAbort(c)
             \/ \E b \in Nodes : CopyBlobStart(c, b)
 \* calls made by other goroutines of the program
 Calls == \/ \E c \in Copies : CopyBegin(c)
-         \/ \E k \in conf.ckeys : Close(k)
+         \/ \E k \in conf.ckeys, x \in CtxKinds : Close(k, x)
          \/ \E t \in {e[1] : e \in idx} : TagDelete(t)
          \/ \E n \in Mans : ManifestDelete(n)
          \/ \E p \in conf.retags : Retag(p)
